@@ -1,17 +1,18 @@
 #!/bin/sh
-# tools/matrix.sh : run every seeded change and every revert mutant against the quick check(s) of its property; write selftest/MATRIX.txt
+# tools/matrix.sh : run every seeded change and every mutant against the quick check(s) of its property, each in its own
+# scratch worktree (J2M_REPO) so that /repo is never touched; writes selftest/MATRIX.txt
 OUT=/verif/selftest/MATRIX.txt
 : > $OUT
 for d in /verif/seeded/C*; do
   id=$(basename $d)
-  /verif/tools/seed_run.sh $id $id >> $OUT 2>&1
+  /verif/tools/mutant_wt.sh $d/patch.diff $id 2>&1 | sed "s/^mutant=patch/seed=$id/" >> $OUT
 done
-while read name checks commit; do
+while read name rest; do
   [ -n "$name" ] || continue
-  /verif/tools/mutant_run.sh /verif/selftest/mutants/$name.diff $checks >> $OUT 2>&1
+  checks=$(echo "$rest" | awk '{$NF=""; print}')
+  /verif/tools/mutant_wt.sh /verif/selftest/mutants/$name.diff $checks >> $OUT 2>&1
 done < /verif/selftest/mutants/REVERTS.txt
 for m in percent_ge_to_gt:C05 number_ge_to_gt:C05 open_before_generate:C17 status_swallow:C17 extend_to_assign:C16 cli_no_anchor:C13 preamble_before_imports:C19; do
-  /verif/tools/mutant_run.sh /verif/selftest/mutants/${m%%:*}.diff ${m##*:} >> $OUT 2>&1
+  /verif/tools/mutant_wt.sh /verif/selftest/mutants/${m%%:*}.diff ${m##*:} >> $OUT 2>&1
 done
-git -C /repo status --short >> $OUT
 echo MATRIX-DONE >> $OUT
